@@ -406,7 +406,7 @@ var argSamples15 = map[string][]string{
 }
 
 func genTyped(r *vh.Rng, desc *gqlty.SchemaDesc) Case {
-	g := &gqlty.QGen{R: r, D: desc, ArgSamples: argSamples15, AliasPool: []string{"k", "m", "x"},
+	g := &gqlty.QGen{R: r, D: desc, ArgSamples: argSamples15, AliasPool: []string{"k", "m", "x"}, ClashAliases: true,
 		PAlias: 30, PFrag: 12, PInline: 12, PTypename: 8, PDirective: 6}
 	if r.Chance(15) {
 		g.WantIll = r.Pick(gqlty.IllKinds)
